@@ -21,7 +21,8 @@ META = {
         'payload, version header; metadata/dict/list/nested-grid values through dump_scalar) passes through such a '
         'pipeline.  JSON (D2): structure is delegated to json.dumps (no manual quoting in jsondumper); identity of the '
         'string is the prefix/cascade agreement with capture markers (shared with C02).  Also (D1) every rebinding of the document text in parser.parse is the decode or a framing step (no normalisation/replace of the whole text), escape decoding is one left-to-right pass (no whole-text pre-pass), and (D2) JSON text payloads reach their constructors verbatim.  Not decided: counting '
-        'grids/rows/cells of an executed round trip.'),
+        'grids/rows/cells of an executed round trip.'
+        ' Also: the empty display string of a reference is a display string -- Ref.__init__ (decision table of has_value), the hs_ref action (presence by token count) and the JSON reference branch (presence by `is not None`; the display group of REF_RE has minimum width 0).'),
     'rule_text': 'obligations = code-point classes x {accepted, contained, decoded} for strings and URIs, whole-token '
                  'inclusions, text-carrying positions x routing, JSON text kinds x cascade/capture',
     'trusted_base': ['re.sub with a single-character class and str.replace with a single-character key are character '
@@ -37,6 +38,10 @@ def run(ctx):
         _zinc.raw_positions(ctx, 'C08.D1', t, version)
     from . import _parse
     _parse.text_flow(ctx, 'C08.D1')
+    from . import _ref
+    _ref.ref_init(ctx, 'C08.D1')
+    _ref.zinc_ref_action(ctx, 'C08.D1')
+    _ref.json_ref_branch(ctx, 'C08.D2')
     # JSON (D2)
     try:
         fn, p, entries = J.extract_cascade(ctx.model)
